@@ -15,6 +15,9 @@ machine that mirrors msdm/algorithms/lrtdp.py step by step and the clauses of th
       concrete representations, zero-probability entries, mass on absorbing states); sampled choices and
       per-trial snapshots are recorded through the repository's own listener and validated by TLC
       against the same machine (mode "trace").
+  R   planner reuse: about half of the A replays and 40% of the free runs are made on an LRTDP object that has
+      already planned on the same MDP or on another one with overlapping labels but a different absorbing
+      set / dynamics / heuristic; the judged run must be that of a fresh planner (same machine, same clauses).
   J   every real run (A, B and non-dyadic configurations: discount 9/10, margins 1e-2 .. 1e-4) is judged
       on its *own* output: TLC evaluates the returned policy exactly (mode "judge"); the clauses of the
       statement are compared with derived tolerances.  Only these raise VIOLATION.
